@@ -4,7 +4,7 @@
 //! Records quiescent snapshots that Free_Trace.tla checks against the state predicates of
 //! Cache.tla (C05 bounded reclaim delay in ticks, C06, C08, C12 worker termination, C17, C19
 //! executors, C20 tiny cleanup intervals).
-use crate::cache::{bo, drain_callbacks, post, ACache, AnyCache, CosterKind, HCallback, HCoster, HValidator, SCache, TabKeys, ValKind, MS, S, V};
+use crate::cache::{bo, drain_callbacks, post, ACache, AnyCache, CosterKind, HCoster, HValidator, SCache, TabKeys, ValKind, MS, V};
 use crate::util::{Opts, Trace};
 use rand::rngs::StdRng;
 use rand::{Rng, SeedableRng};
@@ -81,40 +81,24 @@ fn spawn_local(f: BoxFut) {
 }
 
 fn build(flavor: &str, exec: &str, max_cost: i64, buf: usize, tick: Duration) -> AnyCache {
-    build_bi(flavor, exec, max_cost, buf, tick, 64, 1000)
+    build_bi(flavor, exec, max_cost, buf, tick, 64, 1000, ValKind::Always, max_cost as u64)
 }
 
-fn build_bi(flavor: &str, exec: &str, max_cost: i64, buf: usize, tick: Duration, bi: usize, nc: usize) -> AnyCache {
+#[allow(clippy::too_many_arguments)]
+fn build_bi(flavor: &str, exec: &str, max_cost: i64, buf: usize, tick: Duration, bi: usize, nc: usize, val: ValKind, order: u64) -> AnyCache {
     if flavor == "sync" {
-        AnyCache::Sync(
-            CacheBuilder::new_with_key_builder(nc, max_cost, TabKeys)
-                .set_hasher(S::default())
-                .set_coster(HCoster(CosterKind::Const2))
-                .set_update_validator(HValidator(ValKind::Always))
-                .set_callback(HCallback)
-                .set_buffer_size(buf)
-                .set_buffer_items(bi)
-                .set_metrics(true)
-                .set_ignore_internal_cost(true)
-                .set_cleanup_duration(tick)
-                .finalize()
-                .expect("finalize") as SCache,
-        )
+        let c: SCache = crate::build_in_order!(CacheBuilder::new_with_key_builder(nc, max_cost, TabKeys), order,
+            HCoster(CosterKind::Const2), HValidator(val), buf, bi, true, true, tick; finalize())
+        .expect("finalize");
+        AnyCache::Sync(c)
     } else {
-        let b = AsyncCacheBuilder::new_with_key_builder(nc, max_cost, TabKeys)
-            .set_hasher(S::default())
-            .set_coster(HCoster(CosterKind::Const2))
-            .set_update_validator(HValidator(ValKind::Always))
-            .set_callback(HCallback)
-            .set_buffer_size(buf)
-            .set_buffer_items(bi)
-            .set_metrics(true)
-            .set_ignore_internal_cost(true)
-            .set_cleanup_duration(tick);
         let c: ACache = match exec {
-            "pool" => b.finalize(spawn_pool),
-            "local" => b.finalize(spawn_local),
-            _ => b.finalize(spawn_thread),
+            "pool" => crate::build_in_order!(AsyncCacheBuilder::new_with_key_builder(nc, max_cost, TabKeys), order,
+                HCoster(CosterKind::Const2), HValidator(val), buf, bi, true, true, tick; finalize(spawn_pool)),
+            "local" => crate::build_in_order!(AsyncCacheBuilder::new_with_key_builder(nc, max_cost, TabKeys), order,
+                HCoster(CosterKind::Const2), HValidator(val), buf, bi, true, true, tick; finalize(spawn_local)),
+            _ => crate::build_in_order!(AsyncCacheBuilder::new_with_key_builder(nc, max_cost, TabKeys), order,
+                HCoster(CosterKind::Const2), HValidator(val), buf, bi, true, true, tick; finalize(spawn_thread)),
         }
         .expect("finalize");
         AnyCache::Async(c)
@@ -134,6 +118,14 @@ impl Api {
             }
         };
         r.unwrap_or(false)
+    }
+    fn insert_only(&self, k: u64, v: u64, cost: i64) -> bool {
+        let val = V { id: v, rev: 0 };
+        match &self.0 {
+            AnyCache::Sync(c) => c.try_insert_if_present(k, val, cost),
+            AnyCache::Async(c) => bo(c.try_insert_if_present(k, val, cost)),
+        }
+        .unwrap_or(false)
     }
     fn remove(&self, k: u64) -> bool {
         match &self.0 {
@@ -194,7 +186,8 @@ impl Api {
 }
 
 /// one instance, run on its own thread; events are sent to the main thread (which holds the watchdog)
-fn instance(tx: mpsc::Sender<Value>, seed: u64, flavor: String, exec: String, tick_ms: u64, tiny: bool, drop_only: bool) {
+#[allow(clippy::too_many_arguments)]
+fn instance(tx: mpsc::Sender<Value>, seed: u64, flavor: String, exec: String, tick_ms: u64, tiny: bool, drop_only: bool, pclear: i32) {
     let mut rng = StdRng::seed_from_u64(seed);
     let start = 100_000 + rng.gen_range(0..1000u64);
     let mut now = start;
@@ -247,7 +240,7 @@ fn instance(tx: mpsc::Sender<Value>, seed: u64, flavor: String, exec: String, ti
             api.get(k);
             lookups += 1;
             what = "get";
-        } else if r < 90 && !tiny {
+        } else if r < 82 + pclear && !tiny {
             // values resident now are dropped without callback
             api.wait();
             let p = post(&api.0);
@@ -274,6 +267,17 @@ fn instance(tx: mpsc::Sender<Value>, seed: u64, flavor: String, exec: String, ti
             }
             lookups = 0;
             what = "clear";
+            // operations issued straight after clear() returned: the loop may not have taken the clear signal yet
+            if rng.gen_bool(0.6) {
+                let v = next_val;
+                next_val += 1;
+                if api.insert(k, v, rng.gen_range(1..4), 0) {
+                    accepted.push(v);
+                }
+                api.get(k);
+                lookups += 1;
+                what = "clear+ops";
+            }
         } else {
             // the clock moves; then steady traffic for several tick periods of REAL time: the loop's
             // ticker must fire while items keep arriving
@@ -336,7 +340,7 @@ fn est_instance(tx: mpsc::Sender<Value>, seed: u64, flavor: String, exec: String
     verif::clock::set_virtual(100_000 * MS);
     drain_callbacks();
     let nc = 100_000;
-    let api = Api(build_bi(&flavor, &exec, 1000, 64, Duration::from_secs(3600), 1, nc));
+    let api = Api(build_bi(&flavor, &exec, 1000, 64, Duration::from_secs(3600), 1, nc, ValKind::Always, seed));
     let _ = tx.send(json!({"ev":"FInit","flavor":flavor,"exec":exec,"kind":"estimates","nc":nc}));
     let keys = [2u64, 3, 4, 5, 6, 7, 8];
     let mut next_val = 1u64;
@@ -388,6 +392,149 @@ fn est_instance(tx: mpsc::Sender<Value>, seed: u64, flavor: String, exec: String
     let _ = tx.send(json!({"ev":"__done"}));
 }
 
+/// PARALLEL clients, nothing scheduled: (1) several threads write one resident key through a logging validator -- the verdict and
+/// the replacement are one critical section, so the logged calls must form a chain (C09); (2) several threads look up a
+/// resident and an absent key -- every lookup is exactly one hit or one miss (C17); (3) close() while other threads keep
+/// inserting -- it returns and the workers terminate (C12, C20)
+fn par_instance(tx: mpsc::Sender<Value>, seed: u64, flavor: String, exec: String) {
+    use crate::cache::{VLOG, VLOG_ON};
+    use std::sync::atomic::AtomicBool;
+    use std::sync::Arc;
+    let mut rng = StdRng::seed_from_u64(seed ^ 0x9a7);
+    verif::clock::set_virtual(100_000 * MS);
+    drain_callbacks();
+    let threads_before = threads_now();
+    let tasks_before = TASKS_ALIVE.load(Ordering::SeqCst);
+    let api = Arc::new(Api(build_bi(&flavor, &exec, 1000, 4096, Duration::from_secs(3600), 64, 1000, ValKind::Logged, seed)));
+    let _ = tx.send(json!({"ev":"FInit","flavor":flavor,"exec":exec,"kind":"parallel"}));
+    let keys = [2u64, 3, 4];
+    let mut next_val = 1u64;
+    let mut resident_key = None;
+    for &k in keys.iter() {
+        let _ = tx.send(json!({"ev":"Op","completed":true,"begin":true,"what":"parallel writers"}));
+        let v0 = next_val;
+        next_val += 1;
+        api.insert(k, v0, 1, 0);
+        api.wait();
+        if api.get(k) != Some(v0) {
+            continue;
+        }
+        resident_key = Some(k);
+        VLOG.lock().clear();
+        VLOG_ON.store(true, Ordering::SeqCst);
+        let writers = 4u64;
+        let per = 30u64;
+        let base = next_val;
+        next_val += writers * per;
+        let hs: Vec<_> = (0..writers)
+            .map(|t| {
+                let api = api.clone();
+                std::thread::spawn(move || {
+                    for i in 0..per {
+                        let v = base + t * per + i;
+                        if (t + i) % 2 == 0 {
+                            api.insert(k, v, 1, 0);
+                        } else {
+                            api.insert_only(k, v, 1);
+                        }
+                    }
+                })
+            })
+            .collect();
+        for h in hs {
+            let _ = h.join();
+        }
+        VLOG_ON.store(false, Ordering::SeqCst);
+        let calls: Vec<Value> = VLOG.lock().drain(..).map(|(p, c, ok)| json!([p, c, ok])).collect();
+        api.wait();
+        let fin = api.get(k).map(|v| v as i64).unwrap_or(-1);
+        let _ = tx.send(json!({"ev":"Chain","init":v0,"calls":calls,"final":fin,"writes":writers * per}));
+    }
+    // (2) lookups from several threads
+    if let Some(k) = resident_key {
+        let _ = tx.send(json!({"ev":"Op","completed":true,"begin":true,"what":"parallel lookups"}));
+        let absent = 7u64;
+        let m0 = post(&api.0)["met"].clone();
+        let readers = 8u64;
+        let per = 20_000u64;
+        let hs: Vec<_> = (0..readers)
+            .map(|t| {
+                let api = api.clone();
+                std::thread::spawn(move || {
+                    let mut found = 0u64;
+                    for _ in 0..per {
+                        if api.get(if t % 2 == 0 { k } else { absent }).is_some() {
+                            found += 1;
+                        }
+                    }
+                    found
+                })
+            })
+            .collect();
+        let mut found = 0u64;
+        for h in hs {
+            found += h.join().unwrap_or(0);
+        }
+        let m1 = post(&api.0)["met"].clone();
+        let d = |n: &str| m1[n].as_i64().unwrap_or(0) - m0[n].as_i64().unwrap_or(0);
+        let _ = tx.send(json!({"ev":"Hammer","lookups":readers * per,"found":found,"hit":d("hit"),"miss":d("miss")}));
+    }
+    // (3) close() under load
+    let _ = tx.send(json!({"ev":"Op","completed":true,"begin":true,"what":"close under load"}));
+    let stop = Arc::new(AtomicBool::new(false));
+    let finished = Arc::new(AtomicUsize::new(0));
+    let inserters = 6usize;
+    let hs: Vec<_> = (0..inserters)
+        .map(|t| {
+            let (api, stop, finished) = (api.clone(), stop.clone(), finished.clone());
+            let mut v = 1_000_000 + t as u64 * 100_000;
+            std::thread::spawn(move || {
+                while !stop.load(Ordering::SeqCst) {
+                    v += 1;
+                    // removes in between: most inserts are New items, the expensive kind for the processor
+                    if v % 3 == 0 {
+                        api.remove(2 + (v % 6));
+                    }
+                    api.insert(2 + (v % 6), v, 1, 0);
+                }
+                finished.fetch_add(1, Ordering::SeqCst);
+            })
+        })
+        .collect();
+    std::thread::sleep(Duration::from_millis(rng.gen_range(5..40)));
+    api.close();
+    let _ = tx.send(json!({"ev":"Op","completed":true,"what":"close under load returned"}));
+    stop.store(true, Ordering::SeqCst);
+    let t0 = Instant::now();
+    while finished.load(Ordering::SeqCst) < inserters && t0.elapsed() < Duration::from_secs(10) {
+        std::thread::sleep(Duration::from_millis(2));
+    }
+    if finished.load(Ordering::SeqCst) < inserters {
+        let _ = tx.send(json!({"ev":"Op","completed":false,"what":"an insert issued around close() never returned"}));
+        let _ = tx.send(json!({"ev":"__done"}));
+        return;
+    }
+    for h in hs {
+        let _ = h.join();
+    }
+    let t0 = Instant::now();
+    let mut left;
+    loop {
+        left = if flavor == "sync" {
+            threads_now().saturating_sub(threads_before)
+        } else {
+            TASKS_ALIVE.load(Ordering::SeqCst).saturating_sub(tasks_before)
+        };
+        if left == 0 || t0.elapsed() > Duration::from_secs(5) {
+            break;
+        }
+        std::thread::sleep(Duration::from_millis(5));
+    }
+    let _ = tx.send(json!({"ev":"Closed","workers_left":left}));
+    drop(api);
+    let _ = tx.send(json!({"ev":"__done"}));
+}
+
 pub fn run(o: &Opts) -> i32 {
     let seed = o.u64("seed", 1);
     let out = o.str("out", "/verif/work/free.ndjson");
@@ -400,7 +547,7 @@ pub fn run(o: &Opts) -> i32 {
     {
         let (tx, rx) = mpsc::channel();
         let (f, e) = (flavor.clone(), exec.clone());
-        std::thread::spawn(move || instance(tx, 0, f, e, tick_ms, false, true));
+        std::thread::spawn(move || instance(tx, 0, f, e, tick_ms, false, true, 8));
         while let Ok(v) = rx.recv_timeout(Duration::from_secs(30)) {
             if v["ev"] == "__done" {
                 break;
@@ -409,15 +556,25 @@ pub fn run(o: &Opts) -> i32 {
     }
     let mut t = Trace::create(&out);
     let mut stuck = 0;
+    // the cycle of instance kinds: norm (operations + clock + real ticks), drop (handles dropped, no close), tiny (cleanup
+    // interval of nanoseconds), est (lookups racing writes, estimates), par (parallel clients)
+    let kinds: Vec<String> = o.str("kinds", if o.flag("est") { "norm,est,drop,tiny" } else { "norm,norm,drop,tiny" }).split(',').map(|s| s.to_string()).collect();
+    let pclear = o.u64("pclear", 8).min(16) as i32;
     for j in 0..n {
-        let tiny = j % 4 == 3;
-        let drop_only = j % 4 == 2;
+        let kind = kinds[j as usize % kinds.len()].clone();
         let (tx, rx) = mpsc::channel();
         let (f, e) = (flavor.clone(), exec.clone());
-        if j % 4 == 1 && o.flag("est") {
-            std::thread::spawn(move || est_instance(tx, seed * 1000 + j, f, e));
-        } else {
-            std::thread::spawn(move || instance(tx, seed * 1000 + j, f, e, tick_ms, tiny, drop_only));
+        match kind.as_str() {
+            "est" => {
+                std::thread::spawn(move || est_instance(tx, seed * 1000 + j, f, e));
+            }
+            "par" => {
+                std::thread::spawn(move || par_instance(tx, seed * 1000 + j, f, e));
+            }
+            k => {
+                let (tiny, drop_only) = (k == "tiny", k == "drop");
+                std::thread::spawn(move || instance(tx, seed * 1000 + j, f, e, tick_ms, tiny, drop_only, pclear));
+            }
         }
         loop {
             match rx.recv_timeout(Duration::from_secs(25)) {
